@@ -12,9 +12,10 @@ EXPLANATION = ('The real EOS methods and residual-class methods (F, F_prime, F_p
                'symbolic states and symbolic EOS constants; z3 decides closure inversion, partial-derivative identities '
                '(against exact symbolic derivatives of the closure terms), Jacobian identities entry by entry, '
                'F_prime_inv @ F_prime == I, and that any state with F == 0 (Newton stub contract) satisfies the three '
-               'jump conditions with D > 0.')
+               'jump conditions (with D > 0 at physical zeros).  The real Newton loop (newton_solver.solve) is executed symbolically with '
+               'an iteration budget of 1-2: every normally returning path has both convergence measures within the tolerance.')
 BOUNDS = ['every path of the piecewise Steinberg formulas explored separately',
-          'Newton iteration replaced by its contract F(x*) == 0 (convergence and root selection outside the claim)']
+          'Newton iteration replaced by its contract F(x*) == 0 in the jump-condition obligations (root selection outside the claim); the real loop with an iteration budget of 1-2 in the newton.* obligations']
 OUTSIDE = ['whether Newton converges and to which root', 'the singularity-eos wrapper class (needs an external library)']
 ASSUMPTIONS = ['Newton stub: solve() returns an arbitrary state with F(state) == 0 in exact arithmetic']
 META = {
